@@ -24,7 +24,7 @@ pub fn strategy(n_cfgs: usize) -> impl Strategy<Value = Case> {
 
 pub fn summarize(r: &ProgRun) -> (String, Vec<String>) {
     let res = match &r.result {
-        Some(Ok(v)) => v.to_string(),
+        Some(Ok(v)) => v.full(),
         Some(Err(e)) => format!("ERR {e:?}"),
         None => "<none>".into(),
     };
@@ -32,7 +32,7 @@ pub fn summarize(r: &ProgRun) -> (String, Vec<String>) {
         .processes
         .values()
         .map(|p| match p {
-            Some(Ok(v)) => strip_pids(v).to_string(),
+            Some(Ok(v)) => strip_pids(v).full(),
             Some(Err(e)) => format!("ERR {e:?}"),
             None => "<running>".into(),
         })
